@@ -543,6 +543,23 @@ class ExprMixin:
                     return k(s, fresh_val(T_STR, 'strmul', s))
             if isinstance(a, VTup) and isinstance(b, VTup) and isinstance(op, ast.Add):
                 return k(s, VTup(a.items + b.items))
+            if isinstance(a, VRef) and isinstance(b, VRef) and isinstance(op, (ast.Sub, ast.BitAnd, ast.BitOr)) \
+                    and isinstance(s.heap[a.rid], HDict) and isinstance(s.heap[b.rid], HDict):
+                ha, hb = s.heap[a.rid], s.heap[b.rid]        # set algebra (dict operands count as their key sets)
+                if ha.kt is None or hb.kt is None:
+                    if isinstance(op, ast.Sub) or (isinstance(op, ast.BitOr) and hb.kt is None):
+                        src = ha
+                    elif isinstance(op, ast.BitOr):
+                        src = hb
+                    else:
+                        src = HDict(None, None, None, None)
+                    return k(s, s.alloc(HDict(src.kt, None, src.mem, None)))
+                if ha.kt != hb.kt:
+                    raise Unsupported("set operation on different element types (line %s)" % node.lineno)
+                kk = z3.Const(fresh_name('sk'), sort_of(ha.kt))
+                x, y = z3.Select(ha.mem, kk), z3.Select(hb.mem, kk)
+                body = z3.And(x, z3.Not(y)) if isinstance(op, ast.Sub) else (z3.And(x, y) if isinstance(op, ast.BitAnd) else z3.Or(x, y))
+                return k(s, s.alloc(HDict(ha.kt, None, z3.Lambda([kk], body), None)))
             if isinstance(a, VRef) and isinstance(b, VRef) and isinstance(op, ast.Add):
                 ha, hb = self.hlist(a, s), self.hlist(b, s)
                 r = s.alloc(HList(ha.et, ha.arr, ha.n))
